@@ -154,6 +154,18 @@ def assembly(chk):
         if isinstance(t, ast.Subscript) and isinstance(t.value, ast.Subscript) and isinstance(t.value.value, ast.Name):
             name = t.value.value.id
             diag = src(t.value.slice)
+            try:
+                tb = {}
+                dsym = sp.expand(_sym(t.value.slice, tb))
+                inv = {v: k for k, v in tb.items()}
+                if set(tb) <= {"j", "self._rspline.degree"}:
+                    jj, dd = tb.get("j"), tb.get("self._rspline.degree")
+                    if jj is not None and dsym == jj:
+                        diag = UP
+                    elif jj is not None and dd is not None and sp.expand(dsym - (2 * dd - jj)) == 0:
+                        diag = LOW
+            except KeyError:
+                pass
             row = src(t.slice)
             key = (name, diag)
             if key not in spec:
@@ -189,10 +201,11 @@ def assembly(chk):
         chk.pat("F4-symmetric-storage", fn, f"{nm}.extend({nm}[-2::-1])", ok,
                 "lower diagonals alias the upper ones (symmetric form filled once)", file=U.POISSON, func=f"{CLS}.__init__")
     # quadrature points / half width
-    okq = "multFactor = (self._rspline.breaks[1] - self._rspline.breaks[0]) * 0.5" in s and \
-        "startPoints = (self._rspline.breaks[1:] + self._rspline.breaks[:-1]) * 0.5" in s and \
-        "self._evalPts = startPoints[:, None] + points[None, :] * multFactor" in s and \
-        "points, self._weights = leggauss(n)" in s
+    from ..core import contains as _contains
+    okq = _contains(fn, "multFactor = (self._rspline.breaks[1] - self._rspline.breaks[0]) * 0.5") and \
+        _contains(fn, "startPoints = (self._rspline.breaks[1:] + self._rspline.breaks[:-1]) * 0.5") and \
+        _contains(fn, "self._evalPts = startPoints[:, None] + points[None, :] * multFactor") and \
+        _contains(fn, "points, self._weights = leggauss(n)")
     chk.pat("F4-quadrature-points", fn, "Gauss-Legendre points mapped to the cells", okq,
             "points = cell midpoint + reference point x half width, weights x half width", file=U.POISSON, func=f"{CLS}.__init__")
     # operator composition: the assembled theta-independent operator, block by block
@@ -285,22 +298,24 @@ def per_mode(chk):
         chk.pat("F4-dirichlet-reset", lp, f"{cls}.{m}: self._coeffs[0] = self._coeffs[-1] = 0 before each mode", ok,
                 "both boundary coefficients are zeroed inside the per-mode loop before the solve, so a Neumann mode's boundary "
                 "value cannot leak into the next Dirichlet mode", bad, file=U.POISSON, func=f"{cls}.{m}")
-        # operator for mode I
-        txt = src(lp).replace(" ", "").replace("\n", "")
-        want = "(self._stiffnessMatrix-self._mVals[I]*self._k2PhiPsi)[self._stiffness_range[I],self._stiffness_range[I]]"
-        txt = txt.replace("self._mVals[I]**2*", "self._mVals[I]*").replace("self._mVals[I]*self._mVals[I]*", "self._mVals[I]*")
-        oko = want in txt and src(lp.iter).replace(" ", "") in ("enumerate(rho.getGlobalIdxVals(0))", "enumerate(phi.getGlobalIdxVals(0))") \
-            and src(lp.target).replace(" ", "") in ("(i,I)", "i,I")
-        bad = None
-        if not oko and isinstance(lp.target, ast.Tuple) and len(lp.target.elts) == 2:
+        # operator for mode I: restricted to the unknowns of the global mode index, every per-mode table read at that index
+        oko, bad = False, None
+        if isinstance(lp.target, ast.Tuple) and len(lp.target.elts) == 2 and isinstance(lp.iter, ast.Call) and src(lp.iter.func) == "enumerate" \
+                and lp.iter.args and src(lp.iter.args[0]).replace(" ", "") in ("rho.getGlobalIdxVals(0)", "phi.getGlobalIdxVals(0)"):
             gi = src(lp.target.elts[1])
-            wrong = [src(n) for n in ast.walk(lp) if isinstance(n, ast.Subscript) and src(n.value) in ("self._mVals", "self._stiffness_range")
-                     and src(n.slice) != gi]
+            ops = [n for n in ast.walk(lp) if isinstance(n, ast.Assign) and isinstance(n.value, ast.Subscript)
+                   and any(src(x) == "self._k2PhiPsi" for x in ast.walk(n.value.value))]
+            tabs = [n for n in ast.walk(lp) if isinstance(n, ast.Subscript) and src(n.value) in ("self._mVals", "self._stiffness_range", "self._coeff_range")]
+            wrong = [src(n) for n in tabs if src(n.slice) != gi]
             if wrong:
                 bad = f"per-mode tables are looked up with {wrong} instead of the global mode index `{gi}`"
+            elif ops:
+                sl = ops[0].value.slice
+                oko = isinstance(sl, ast.Tuple) and len(sl.elts) == 2 and all(src(e_) == f"self._stiffness_range[{gi}]" for e_ in sl.elts) \
+                    and any(src(x) == "self._stiffnessMatrix" for x in ast.walk(ops[0].value.value))
         chk.pat("F4-mode-operator", lp, f"{cls}.{m}: operator of mode I", oko,
-                "operator = (dPhidPsi + dPhiPsi + PhiPsi) - m_I^2 k2, restricted to the unknowns of mode I", bad,
-                file=U.POISSON, func=f"{cls}.{m}")
+                "operator = (theta-independent operator - m_I^2 k2), restricted to the unknowns of mode I; every per-mode table is read at "
+                "the global mode index", bad, file=U.POISSON, func=f"{cls}.{m}")
     # _solveMode: rhs = mass . coeffs(rho), unknowns written into the mode's coefficient range, evaluation of full coeffs
     sm = chk.func(U.POISSON, f"{CLS}._solveMode")
     t = src(sm).replace(" ", "").replace("\n", "")
